@@ -180,6 +180,10 @@ def python_var_part(run, i):
 
     r = run.rng("pyvar", i)
     decls = shapes.random_codec_schema(r, n_structs=(2, 5), prefix="W")
+    # structs of one leaf kind only (all floats, all whole-byte integers), alone and nested behind whole-byte members
+    decls.append(shapes.mk_struct("WGyro%d" % i, [("x", 0, ("f32",)), ("y", 1, ("f64",)), ("z", 2, ("f32",))]))
+    decls.append(shapes.mk_struct("WBytes%d" % i, [("lo", 0, ("u", 8)), ("mid", 1, ("u", 16)), ("hi", 2, ("i", 32)), ("top", 3, ("u", 64))]))
+    decls.append(shapes.mk_struct("WNav%d" % i, [("t", 0, ("u", 16)), ("fix", 1, ("struct", "WGyro%d" % i)), ("raw", 2, ("struct", "WBytes%d" % i)), ("l", 3, ("dyn", ("struct", "WGyro%d" % i)))]))
     sch = S.Sch(decls)
     text = S.print_schema(decls)
     res = CC.parse(text)
@@ -221,6 +225,45 @@ def python_var_part(run, i):
                     run.violation("Python codec of the twin decodes the same bytes to a different value", case)
                     return
                 run.count("python_var_twins_equal")
+    # history: a schema object that the codec has ALREADY used grows - another parsed schema is merged into it, or
+    # its structs are appended one by one - and the newcomers are the schema above resp. its twin
+    base_text = 'version: "3"\nstruct GrowBase { a @0: u8, b @1: u16, }\n'
+    twin = permuted(decls, r)
+    grown = []
+    for tag, dd in (("orig", decls), ("twin", twin)):
+        try:
+            f = CC.parse(base_text).unwrap()
+            serde.decode(f, "GrowBase", serde.encode(f, "GrowBase", {"a": 1, "b": 515}))
+            newcomer = CC.parse(S.print_schema(dd)).unwrap()
+            if i % 2:
+                f.merge(newcomer)
+            else:
+                for st in newcomer.structs:
+                    f.structs.append(st)
+                f.enums.extend(newcomer.enums)
+            grown.append(f)
+        except Exception as e:
+            run.violation("growing a schema object that is in use raised %s: %s" % (type(e).__name__, e), {"schema": text})
+            return
+    for name in sch.structs:
+        for v in vals[name][:2]:
+            case = {"schema": text, "twin": S.print_schema(twin), "struct": name, "value": v,
+                    "history": "both schemas were %s into a schema object the codec had already used" % ("merged" if i % 2 else "appended struct by struct")}
+            try:
+                b0 = bytes(serde.encode(grown[0], name, v))
+                b1 = bytes(serde.encode(grown[1], name, v))
+                d1 = serde.decode(grown[1], name, bytearray(b0))
+                d0 = serde.decode(grown[0], name, bytearray(b0))
+            except Exception as e:
+                run.violation("Python codec raises on a grown schema object: %s: %s" % (type(e).__name__, e), case)
+                return
+            if b0 != b1 or not ref.same(d0, d1):
+                run.violation("Python codec bytes change when field declarations are permuted (ids kept) - on a schema object that grew while in use", dict(case, bytes=b0, twin_bytes=b1))
+                return
+            if b0 != ref.encode(sch, name, v):
+                run.violation("Python codec bytes differ from the id-ordered reference on a schema object that grew while in use", dict(case, bytes=b0))
+                return
+            run.count("python_grown_schema_twins_equal")
     run.case(sig="pythonvar|%d" % i)
 
 
@@ -356,7 +399,7 @@ def run(run):
 
 
 def conclude(run):
-    run.require("layout_twins_equal", "dbc_twins_equal", "python_twins_equal", "python_var_twins_equal", "c_twins_equal", "cpp_twins_equal")
+    run.require("layout_twins_equal", "dbc_twins_equal", "python_twins_equal", "python_var_twins_equal", "python_grown_schema_twins_equal", "c_twins_equal", "cpp_twins_equal")
 
 
 def replay(run, case):
